@@ -240,5 +240,12 @@ class CondGen:
         op = self.r.choice(["and", "or", "xor"])
         a = self.tree(doc, depth - 1, classes, null_p)
         # one combination in twelve repeats an operand (a xor a is false everywhere; a and a is a, but not the same object)
-        b = copy.deepcopy(a) if self.r.random() < 0.08 else self.tree(doc, depth - 1, classes, null_p)
+        if self.r.random() < 0.08:
+            b = copy.deepcopy(a)
+            if self.r.random() < 0.5:
+                # ... or an operand that is == to it but need not behave alike (1 / 1.0 / True as arguments)
+                for l in b.leaves():
+                    l.args = [self.g.twin(x) if isinstance(x, (bool, int, float)) else x for x in l.args]
+        else:
+            b = self.tree(doc, depth - 1, classes, null_p)
         return Bin(op, a, b)
